@@ -369,7 +369,10 @@ def make_search(mido, type_, acc):
         except TypeError:
             return False        # data of an unsized type: reported, not expanded
 
-    return Search(build, ops, apply, check, key, expand=expand)
+    # normal size is a few hundred states per type; a cap keeps the run
+    # bounded when a defect makes invalid states reachable (they are reported)
+    return Search(build, ops, apply, check, key, expand=expand,
+                  max_states=6000)
 
 
 def worker(shard):
